@@ -282,8 +282,67 @@ func c11OwnLangMap(c *core.Ctx) bool {
 	return true
 }
 
+// c11Directed: (a) a MessageFunc / execution formatter that lets the default formatter write its text first and then sets its own:
+// the message is the one it set last; (b) the parameters an issue carries describe what the test enforces: after the caller reused
+// the slice it built a OneOf from, a value the issue lists among the options is not a value the test rejected.
+func c11Directed(c *core.Ctx) bool {
+	decorate := func(e *z.ZogIssue, ctx z.Ctx) {
+		conf.DefaultIssueFormatter(e, ctx)
+		e.SetMessage("[field] " + e.Message)
+	}
+	var s string
+	l1 := z.String().Min(5, z.MessageFunc(decorate)).Parse("ab", &s)
+	l2 := z.String().Min(5).Parse("ab", &s, z.WithIssueFormatter(decorate))
+	c.Eval(2)
+	for i, l := range []z.ZogIssueList{l1, l2} {
+		if len(l) != 1 || !strings.HasPrefix(l[0].Message, "[field] string must") {
+			c.Violation("message-source|formatter-that-decorates-the-default-text", map[string]any{"where": []string{"MessageFunc", "WithIssueFormatter"}[i], "formatter": "calls conf.DefaultIssueFormatter(e, ctx), then e.SetMessage(\"[field] \" + e.Message)", "messages": fmt.Sprint(z.Issues.SanitizeList(l))})
+			return false
+		}
+	}
+	for _, kind := range []string{"string", "int"} {
+		var rejected, listed string
+		if kind == "string" {
+			opts := []string{"small", "large"}
+			sch := z.String().OneOf(opts)
+			opts[0], opts[1] = "tiny", "huge" // the caller's scratch slice goes on to its next use
+			for _, v := range []string{"small", "large", "tiny", "huge", "other"} {
+				if l := sch.Parse(v, &s); len(l) == 1 {
+					rejected += v + " "
+					listed = fmt.Sprint(l[0].Params["one_of_options"])
+					if strings.Contains(" "+strings.Trim(listed, "[]")+" ", " "+v+" ") {
+						c.Violation("params-do-not-describe-the-test|OneOf", map[string]any{"schema": "opts := []string{small, large}; sch := String().OneOf(opts); opts[0], opts[1] = tiny, huge", "rejected_value": v, "options_the_issue_lists": listed, "message": l[0].Message})
+						return false
+					}
+				}
+			}
+		} else {
+			opts := []int{1, 2}
+			sch := z.Int().OneOf(opts)
+			opts[0], opts[1] = 7, 8
+			var n int
+			for _, v := range []int{1, 2, 7, 8, 9} {
+				if l := sch.Parse(v, &n); len(l) == 1 {
+					listed = fmt.Sprint(l[0].Params["one_of_options"])
+					if strings.Contains(" "+strings.Trim(listed, "[]")+" ", fmt.Sprintf(" %d ", v)) {
+						c.Violation("params-do-not-describe-the-test|OneOf", map[string]any{"schema": "opts := []int{1, 2}; sch := Int().OneOf(opts); opts[0], opts[1] = 7, 8", "rejected_value": v, "options_the_issue_lists": listed, "message": l[0].Message})
+						return false
+					}
+				}
+			}
+		}
+		c.Eval(5)
+		_ = rejected
+	}
+	c.Count("directed_message_scenarios", 1)
+	return true
+}
+
 func (c11) RunCase(c *core.Ctx) {
 	if c.Case == 3 && !c11OwnLangMap(c) {
+		return
+	}
+	if c.Case == 4 && !c11Directed(c) {
 		return
 	}
 	if c.Case >= len(c11Cells) {
